@@ -14,7 +14,8 @@ def run(chk, st, tier):
     if not runner:
         return
     small = [s for s in shapes if s.name != "flat24"] or shapes
-    files = R.make_files(chk, runner, small, rng, 14 if tier == "quick" else 120, maxrecs=5, name="C10-files")
+    # (few files in the quick tier: every codec gets its share and every file has records, whatever the seed)
+    files = R.make_files(chk, runner, small, rng, 15 if tier == "quick" else 120, maxrecs=5, name="C10-files", minrecs=1, codec_cycle=True)
     # fault-free pass: number of source operations of each read
     base_cases = [("p%d" % i, w.shape, f, "plain") for i, (w, f) in enumerate(files)]
     impl0, model0, _, _ = R.run_reads(runner, small, base_cases, "C10-base")
